@@ -312,12 +312,12 @@ class CatchScope(Scope):
 
     def declare(self, symbol):
         """
-        Nothing gets declared here - it's the parents problem, except
-        for the case where the symbol is the one we have here.
+        Nothing gets declared here - it's the parents problem; this
+        includes a var statement naming the catch symbol, which is
+        hoisted out of the catch block like any other.
         """
 
-        if symbol != self.catch_symbol:
-            self.parent.declare(symbol)
+        self.parent.declare(symbol)
 
     def reference(self, symbol, count=1):
         """
@@ -352,8 +352,15 @@ class CatchScope(Scope):
         replacement available.
         """
 
-        replacement = name_generator(skip=(self._reserved_symbols))
-        self.remapped_symbols[self.catch_symbol] = next(replacement)
+        if self.catch_symbol in self.parent.local_declared_symbols:
+            # the symbol is also declared by the enclosing scope, where
+            # a var statement inside the catch block names both of
+            # them with the one identifier: share the name.
+            self.remapped_symbols[self.catch_symbol] = self.parent.resolve(
+                self.catch_symbol)
+        else:
+            replacement = name_generator(skip=(self._reserved_symbols))
+            self.remapped_symbols[self.catch_symbol] = next(replacement)
 
         # also to continue down the children.
         for child in self.children:
